@@ -56,6 +56,7 @@ def run(rep, tier, seed, tr_errors):
     Z = circuit.get_impedances(f)
     Z = Z + (rs.normal(0, 0.002, Z.shape) + 1j * rs.normal(0, 0.002, Z.shape)) * abs(Z)
     data = DataSet(f, Z, label="c17")
+    exact = DataSet(f, parse_cdc("R{R=100}(R{R=200}C{C=1e-4})").get_impedances(f), label="c17-exact")
     data41 = pyimpspec.generate_mock_data("CIRCUIT_1", noise=0.5, seed=42, num_per_decade=10)[0]
     problems = []
     procs = [1, 2, 4] if tier == "quick" else [1, 2, 4, 16]
@@ -83,6 +84,14 @@ def run(rep, tier, seed, tr_errors):
                     "fit_circuit(lists)": lambda: pyimpspec.fit_circuit(parse_cdc("R(RC)(RQ)"), data, method=["leastsq", "least_squares", "nelder"],
                                                                         weight=["boukamp", "modulus"], max_nfev=60, num_procs=np_),
                 }
+                # ties: exact data fitted from the generating values — several method/weight pairs reach exactly the same pseudo
+                # chi-squared, and the winner among equals must be the first in method/weight order whatever finishes first
+                calls["fit_circuit(ties: exact data, 1 method x 4 weights)"] = lambda: pyimpspec.fit_circuit(
+                    parse_cdc("R{R=100}(R{R=200}C{C=1e-4})"), exact, method=["least_squares"],
+                    weight=["unity", "modulus", "proportional", "boukamp"], max_nfev=60, num_procs=np_)
+                calls["fit_circuit(ties: exact data, 4 methods x 1 weight)"] = lambda: pyimpspec.fit_circuit(
+                    parse_cdc("R{R=100}(R{R=200}C{C=1e-4})"), exact, method=["leastsq", "nelder", "lbfgsb", "bfgs"],
+                    weight=["boukamp"], max_nfev=60, num_procs=np_)
                 if pat == 0:
                     from pyimpspec.analysis.kramers_kronig import evaluate_log_F_ext
                     calls["evaluate_log_F_ext"] = lambda: evaluate_log_F_ext(data, test="real", num_F_ext_evaluations=10, num_procs=np_)[0][1][0]
